@@ -22,6 +22,21 @@ pub fn subs() -> Vec<Box<dyn AnySub>> {
             check: check_roundtrip,
         }),
         Box::new(Sub {
+            name: "roundtrip-large-fold",
+            quick: 150,
+            thorough: 3000,
+            strat: || {
+                (plan(PlanOpts { allow_s3: false, plain_spelling: true, ..PlanOpts::default() }), prop_oneof![Just(b'!'), Just(b'a'), Just(b'*'), Just(b' ')], 15_000usize..70_000)
+                    .prop_map(|(mut p, fill, n)| {
+                        p.cfg.fold = true;
+                        p.form = Some(vec![(B::from("big"), B(vec![fill; n])), (B::from("Action"), B::from("x"))]);
+                        p
+                    })
+                    .boxed()
+            },
+            check: check_roundtrip,
+        }),
+        Box::new(Sub {
             name: "roundtrip-folded",
             quick: 20_000,
             thorough: 300_000,
@@ -67,7 +82,13 @@ pub fn check_roundtrip(p: &Plan, cc: &mut CaseCtx) -> CheckResult {
     };
     if !a.verdict().is_accept() {
         cc.unspecified = true;
-        return Ok(());
+        // An accepted request must still come back as submitted. Where the model cannot say whether folding
+        // applies, nothing more is checked; where it can (e.g. a merged URI too large for http::Uri) the
+        // round trip below applies to whatever the crate chose to accept.
+        match a.verdict() {
+            Verdict::Unspecified { why, .. } if why.contains("exceeds what http::Uri can hold") => {}
+            _ => return Ok(()),
+        }
     }
     let sent = &case.req;
     if ret.method != sent.method {
